@@ -731,17 +731,18 @@ Lemma refusal_into_http hv :
 Proof. eexists. split; [lazy; reflexivity|]. repeat split; reflexivity. Qed.
 
 Definition is_internal_msg (msg : list N) : Prop :=
-  msg = flag_no_encoding_msg \/ msg = flag_invalid_prefix \/ msg = decompress_err_prefix.
+  msg = flag_no_encoding_msg \/ msg = flag_invalid_prefix \/ msg = decompress_err_prefix \/
+  msg = missing_request_msg.
 Lemma internal_into_http msg : is_internal_msg msg ->
   exists m, status_into_http (internal msg) = RespStatus (internal msg) m /\
     hm_get_all m hdr_grpc_status = [STATUS_INTERNAL] /\
     hm_get_all m hdr_grpc_accept_encoding = [] /\
     hm_get_all m hdr_grpc_encoding = [].
 Proof.
-  intros [ -> | [ -> | -> ] ]; (eexists; split; [lazy; reflexivity|]; repeat split; reflexivity).
+  intros [ -> | [ -> | [ -> | -> ] ] ]; (eexists; split; [lazy; reflexivity|]; repeat split; reflexivity).
 Qed.
 
-Lemma status_into_http_not_ok st m f u : status_into_http st <> RespOk m f u.
+Lemma status_into_http_not_ok st m f : status_into_http st <> RespOk m f.
 Proof. unfold status_into_http. destruct (add_header _ _); discriminate. Qed.
 Lemma status_into_http_total st : well_formed st -> exists m, status_into_http st = RespStatus st m.
 Proof.
@@ -750,23 +751,54 @@ Proof.
 Qed.
 
 Lemma decode_first_status enc flag infl st :
-  decode_first enc flag infl = inr st -> exists msg, st = internal msg /\ is_internal_msg msg.
+  decode_first enc flag infl = inr st ->
+  exists msg, st = internal msg /\ is_internal_msg msg /\ msg <> missing_request_msg.
 Proof.
   unfold decode_first, decode_flag, is_internal_msg.
   destruct (flag =? 0); [discriminate|]. destruct (flag =? 1).
   - destruct enc as [e|].
-    + destruct (inflates_with infl e); [discriminate|]. intros H. injection H as <-. eauto.
-    + intros H. injection H as <-. eauto.
-  - intros H. injection H as <-. eauto.
+    + destruct (inflates_with infl e); [discriminate|]. intros H. injection H as <-.
+      eexists. split; [reflexivity|]. split; [tauto|]. intros H; vm_compute in H; discriminate.
+    + intros H. injection H as <-.
+      eexists. split; [reflexivity|]. split; [tauto|]. intros H; vm_compute in H; discriminate.
+  - intros H. injection H as <-.
+    eexists. split; [reflexivity|]. split; [tauto|]. intros H; vm_compute in H; discriminate.
 Qed.
+Lemma decode_all_status enc fs n st :
+  decode_all enc fs = (n, inr st) -> exists msg, st = internal msg /\ is_internal_msg msg.
+Proof.
+  revert n. induction fs as [|f r IH]; intros n; cbn [decode_all]; [discriminate|].
+  destruct (decode_first enc (rf_flag f) (rf_inflates f)) as [[]|st'] eqn:E.
+  - destruct (decode_all enc r) as [n' e'] eqn:Er. intros H. injection H as <- ->. eapply IH. reflexivity.
+  - intros H. injection H as <- <-. destruct (decode_first_status _ _ _ _ E) as (msg & -> & Hm & _). eauto.
+Qed.
+Lemma map_request_unary_status enc fs n st :
+  map_request_unary enc fs = (n, inr st) -> exists msg, st = internal msg /\ is_internal_msg msg.
+Proof.
+  unfold map_request_unary. destruct fs as [|f r].
+  - intros H. injection H as <- <-. eexists. split; [reflexivity|]. unfold is_internal_msg. tauto.
+  - apply decode_all_status.
+Qed.
+(* frames that are all unflagged are all delivered *)
+Lemma decode_all_plain enc fs :
+  Forall (fun f => rf_flag f = 0) fs -> decode_all enc fs = (length fs, inl tt).
+Proof.
+  induction 1 as [|f r Hf _ IH]; [reflexivity|]. cbn [decode_all length].
+  unfold decode_first, decode_flag. rewrite Hf. cbn [N.eqb]. now rewrite IH.
+Qed.
+(* a first frame flagged as compressed on a stream without encoding: INTERNAL, nothing delivered *)
+Lemma decode_all_flagged f r :
+  rf_flag f = 1 -> decode_all None (f :: r) = (O, inr (internal flag_no_encoding_msg)).
+Proof. intros H. cbn [decode_all]. unfold decode_first, decode_flag. rewrite H. reflexivity. Qed.
 
 Definition chosen (sv : server) (rq : request) : option encoding :=
   from_accept_encoding_header (rq_headers rq) (sv_send sv).
 
-(* the announced header of an answered call *)
-Lemma map_response_ok md ov acc :
-  exists hdrs, map_response (HOk md ov) acc =
-               RespOk hdrs (flag_of (effective_encoding acc ov)) (effective_encoding acc ov) /\
+(* the coding of every frame of an answered call, and the announced header *)
+Lemma map_response_ok cmp s md ov msgs acc :
+  exists hdrs,
+    map_response cmp s (HOk md ov msgs) acc =
+      RespOk hdrs (map (encode_item cmp (effective_encoding acc (override_for s ov))) (response_messages s msgs)) /\
     hm_get_all hdrs hdr_grpc_encoding =
       match acc with Some e => [as_str e] | None => hm_get_all md hdr_grpc_encoding end /\
     hm_get_all hdrs hdr_grpc_accept_encoding = hm_get_all md hdr_grpc_accept_encoding /\
@@ -784,64 +816,118 @@ Proof.
     + apply get_all_insert_same.
 Qed.
 
-(* every answered call: which coding the message frame uses, its flag, what is announced *)
-Theorem server_response_exact sv rq h hdrs flag used :
-  server_unary sv rq h = RespOk hdrs flag used ->
-  exists md ov, h = HOk md ov /\
-    used = effective_encoding (chosen sv rq) ov /\ flag = flag_of used /\
-    hm_get_all hdrs hdr_grpc_encoding =
-      match chosen sv rq with Some e => [as_str e] | None => hm_get_all md hdr_grpc_encoding end.
+(* whatever the entry point, an answered call went through map_response with the encoding
+   chosen by from_accept_encoding_header(request headers, send set) *)
+Lemma server_call_ok cmp s sv rq h hdrs frames :
+  server_call cmp s sv rq h = RespOk hdrs frames ->
+  exists d, map_response cmp s (h d) (chosen sv rq) = RespOk hdrs frames.
 Proof.
-  unfold server_unary. fold (chosen sv rq).
+  unfold server_call. fold (chosen sv rq).
   destruct (from_encoding_header (rq_headers rq) (sv_accept sv)) as [enc|st|]; [| |discriminate].
-  - destruct (decode_first enc (rq_flag rq) (rq_inflates rq)) as [[]|st].
-    + destruct h as [md ov|st].
-      * destruct (map_response_ok md ov (chosen sv rq)) as (hd & -> & H1 & _).
-        intros H. injection H as <- <- <-. exists md, ov. repeat split. exact H1.
-      * intros H. cbn [map_response] in H. now apply status_into_http_not_ok in H.
-    + intros H. now apply status_into_http_not_ok in H.
+  - destruct (request_is_unary s).
+    + destruct (map_request_unary enc (rq_frames rq)) as [n [u|st]].
+      * intros H. eauto.
+      * intros H. now apply status_into_http_not_ok in H.
+    + intros H. eauto.
   - intros H. now apply status_into_http_not_ok in H.
 Qed.
 
-(* a response is compressed only with an encoding enabled for sending and offered *)
-Theorem server_compresses_only_as_negotiated sv rq h hdrs flag used e :
-  server_unary sv rq h = RespOk hdrs flag used -> used = Some e ->
-  is_enabled (sv_send sv) e = true /\ offers (rq_headers rq) e /\ flag = 1 /\
-  hm_get_all hdrs hdr_grpc_encoding = [as_str e].
+(* every answered call of every entry point: the coding of each frame and what is announced *)
+Theorem server_response_exact cmp s sv rq h hdrs frames :
+  server_call cmp s sv rq h = RespOk hdrs frames ->
+  exists d md ov msgs, h d = HOk md ov msgs /\
+    frames = map (encode_item cmp (effective_encoding (chosen sv rq) (override_for s ov)))
+                 (response_messages s msgs) /\
+    hm_get_all hdrs hdr_grpc_encoding =
+      match chosen sv rq with Some e => [as_str e] | None => hm_get_all md hdr_grpc_encoding end.
 Proof.
-  intros H Hu. destruct (server_response_exact _ _ _ _ _ _ H) as (md & ov & -> & Hused & Hflag & Hann).
-  rewrite Hu in Hused, Hflag. destruct ov; cbn [effective_encoding] in Hused; [|discriminate].
-  symmetry in Hused. rewrite Hused in Hann. destruct (server_choice_sound _ _ _ Hused) as [H1 H2].
-  repeat split; assumption.
+  intros H. apply server_call_ok in H as [d H]. exists d.
+  destruct (h d) as [md ov msgs|st] eqn:Eh.
+  - destruct (map_response_ok cmp s md ov msgs (chosen sv rq)) as (hd & E & H1 & _).
+    rewrite E in H. injection H as <- <-. exists md, ov, msgs. repeat split. exact H1.
+  - cbn [map_response] in H. now apply status_into_http_not_ok in H.
+Qed.
+
+(* a response frame is compressed only with an encoding enabled for sending and offered by the
+   request; it is then flagged, announced, and its payload is that compressor's output *)
+Theorem server_compresses_only_as_negotiated cmp s sv rq h hdrs frames f e :
+  server_call cmp s sv rq h = RespOk hdrs frames -> In f frames -> wf_used f = Some e ->
+  is_enabled (sv_send sv) e = true /\ offers (rq_headers rq) e /\ wf_flag f = 1 /\
+  hm_get_all hdrs hdr_grpc_encoding = [as_str e] /\
+  exists msg, wf_bytes f = frame 1 (cmp e msg).
+Proof.
+  intros H Hin Hu. destruct (server_response_exact _ _ _ _ _ _ _ H) as (d & md & ov & msgs & _ & Hf & Hann).
+  subst frames. apply in_map_iff in Hin as (msg & <- & _). cbn [encode_item wf_used wf_flag wf_bytes] in *.
+  destruct (override_for s ov); cbn [effective_encoding] in *; [|discriminate].
+  rewrite Hu in *. destruct (server_choice_sound _ _ _ Hu) as [H1 H2].
+  repeat split; try assumption. now exists msg.
+Qed.
+(* every other frame is the plain message with flag 0 *)
+Theorem server_plain_frames cmp s sv rq h hdrs frames f :
+  server_call cmp s sv rq h = RespOk hdrs frames -> In f frames -> wf_used f = None ->
+  wf_flag f = 0 /\ exists msg, wf_bytes f = frame 0 msg.
+Proof.
+  intros H Hin Hu. destruct (server_response_exact _ _ _ _ _ _ _ H) as (d & md & ov & msgs & _ & Hf & _).
+  subst frames. apply in_map_iff in Hin as (msg & <- & _). cbn [encode_item wf_used wf_flag wf_bytes] in *.
+  rewrite Hu. split; [reflexivity|now exists msg].
+Qed.
+
+(* completeness at the level of a call, every entry point: if the (visible ASCII) header offers
+   an encoding that is enabled for sending, an answered call announces the first such one *)
+Theorem server_call_choice_complete cmp s sv rq h hdrs frames v e :
+  hm_get (rq_headers rq) hdr_grpc_accept_encoding = Some v -> forallb is_visible_ascii v = true ->
+  In (as_str e) (split_by_comma v) -> is_enabled (sv_send sv) e = true ->
+  server_call cmp s sv rq h = RespOk hdrs frames ->
+  exists e' pre post,
+    chosen sv rq = Some e' /\ is_enabled (sv_send sv) e' = true /\
+    split_by_comma v = pre ++ as_str e' :: post /\
+    (forall e'', In (as_str e'') pre -> is_enabled (sv_send sv) e'' = false) /\
+    hm_get_all hdrs hdr_grpc_encoding = [as_str e'].
+Proof.
+  intros Hv Hvis Hin He H.
+  destruct (server_choice_complete _ _ _ _ Hv Hvis Hin He) as (e' & pre & post & Hc & He' & Hs & Hpre).
+  destruct (server_response_exact _ _ _ _ _ _ _ H) as (d & md & ov & msgs & _ & _ & Hann).
+  fold (chosen sv rq) in Hc. rewrite Hc in Hann. exists e', pre, post. repeat split; assumption.
 Qed.
 
 (* grpc-encoding is announced exactly when an encoding was chosen, and names it; without the
-   opt-out the frame is flagged and coded iff announced; with the opt-out it never is *)
-Theorem server_announce_iff sv rq md ov hdrs flag used :
-  server_unary sv rq (HOk md ov) = RespOk hdrs flag used ->
-  hm_get_all md hdr_grpc_encoding = [] ->
+   opt-out every frame is flagged and coded iff announced; with the opt-out (unary responses
+   only) no frame is.  Premise: the handler's own metadata never carries grpc-encoding. *)
+Theorem server_announce_iff cmp s sv rq h hdrs frames :
+  server_call cmp s sv rq h = RespOk hdrs frames ->
+  (forall d md ov msgs, h d = HOk md ov msgs -> hm_get_all md hdr_grpc_encoding = []) ->
   (forall e, hm_get_all hdrs hdr_grpc_encoding = [as_str e] <-> chosen sv rq = Some e) /\
   (hm_get_all hdrs hdr_grpc_encoding = [] <-> chosen sv rq = None) /\
-  (ov = Inherit -> used = chosen sv rq /\ (flag = 1 <-> chosen sv rq <> None) /\ (flag = 0 <-> chosen sv rq = None)) /\
-  (ov = Disable -> used = None /\ flag = 0).
+  exists d md ov msgs, h d = HOk md ov msgs /\
+    (override_for s ov = Inherit ->
+       Forall (fun f => wf_used f = chosen sv rq /\ wf_flag f = flag_of (chosen sv rq)) frames) /\
+    (override_for s ov = Disable ->
+       response_is_unary s = true /\ ov = Disable /\
+       Forall (fun f => wf_used f = None /\ wf_flag f = 0) frames).
 Proof.
-  intros H Hmd. destruct (server_response_exact _ _ _ _ _ _ H) as (md' & ov' & E & Hused & Hflag & Hann).
-  injection E as <- <-. rewrite Hmd in Hann. split; [|split; [|split]].
+  intros H Hmd. destruct (server_response_exact _ _ _ _ _ _ _ H) as (d & md & ov & msgs & Eh & Hf & Hann).
+  rewrite (Hmd _ _ _ _ Eh) in Hann. split; [|split].
   - intros e. rewrite Hann. destruct (chosen sv rq) as [e'|]; split; intros H1; try discriminate.
     + injection H1 as H1. apply as_str_injective in H1. now subst.
     + now injection H1 as ->.
   - rewrite Hann. destruct (chosen sv rq); split; intros; congruence.
-  - intros ->. cbn [effective_encoding] in Hused. subst used flag. split; [reflexivity|].
-    destruct (chosen sv rq); cbn [flag_of]; split; split; intros; try congruence; try discriminate; try lia.
-  - intros ->. cbn [effective_encoding] in Hused. subst used flag. split; reflexivity.
+  - exists d, md, ov, msgs. split; [exact Eh|]. split.
+    + intros Ho. rewrite Ho in Hf. cbn [effective_encoding] in Hf. subst frames.
+      apply Forall_forall. intros f Hin. apply in_map_iff in Hin as (m & <- & _). split; reflexivity.
+    + intros Ho. split; [|split].
+      * unfold override_for in Ho. destruct (response_is_unary s); [reflexivity|discriminate].
+      * unfold override_for in Ho. destruct (response_is_unary s); [exact Ho|discriminate].
+      * rewrite Ho in Hf. cbn [effective_encoding] in Hf. subst frames.
+        apply Forall_forall. intros f Hin. apply in_map_iff in Hin as (m & <- & _). split; reflexivity.
 Qed.
 
-(* a request whose grpc-encoding is not enabled for receiving is refused: UNIMPLEMENTED,
-   grpc-accept-encoding = precisely the enabled encodings (in order) + identity *)
-Theorem server_refuses_unaccepted sv rq h v :
+(* a request whose grpc-encoding is not enabled for receiving is refused by every entry point,
+   whatever the handler: UNIMPLEMENTED, grpc-accept-encoding = precisely the enabled encodings
+   (in order) + identity *)
+Theorem server_refuses_unaccepted cmp s sv rq h v :
   hm_get (rq_headers rq) hdr_grpc_encoding = Some v ->
   (forall e, v = as_str e -> is_enabled (sv_accept sv) e = false) -> v <> encoding_header_identity ->
-  exists st m, server_unary sv rq h = RespStatus st m /\ st_code st = Code_Unimplemented /\
+  exists st m, server_call cmp s sv rq h = RespStatus st m /\ st_code st = Code_Unimplemented /\
     hm_get_all m hdr_grpc_status = [STATUS_UNIMPLEMENTED] /\
     hm_get_all m hdr_grpc_accept_encoding = [refusal_value (sv_accept sv)] /\
     split_by_comma (refusal_value (sv_accept sv)) =
@@ -850,58 +936,68 @@ Theorem server_refuses_unaccepted sv rq h v :
 Proof.
   intros Hv Hno Hid. pose proof (recv_encoding_exact (rq_headers rq) (sv_accept sv)) as H.
   rewrite Hv in H. destruct H as (_ & _ & H). specialize (H Hno Hid).
-  unfold server_unary. rewrite H.
+  unfold server_call. rewrite H.
   destruct (refusal_into_http (refusal_value (sv_accept sv))) as (m & -> & H1 & H2 & H3 & _).
   eexists _, m. repeat split; try assumption. apply refusal_value_lists_enabled.
 Qed.
 
-(* conversely the refusal happens only then: an absent, identity or enabled grpc-encoding
-   lets the call proceed to the frame *)
-Theorem server_accepts_enabled sv rq h :
+(* conversely the refusal happens only then: with an absent, identity or enabled grpc-encoding
+   and unflagged frames every entry point reaches its handler *)
+Theorem server_accepts_enabled cmp s sv rq h :
   (hm_get (rq_headers rq) hdr_grpc_encoding = None \/
    hm_get (rq_headers rq) hdr_grpc_encoding = Some encoding_header_identity \/
    exists e, hm_get (rq_headers rq) hdr_grpc_encoding = Some (as_str e) /\ is_enabled (sv_accept sv) e = true) ->
-  rq_flag rq = 0 -> server_unary sv rq h = map_response h (chosen sv rq).
+  Forall (fun f => rf_flag f = 0) (rq_frames rq) -> rq_frames rq <> [] ->
+  server_call cmp s sv rq h = map_response cmp s (h (length (rq_frames rq), inl tt)) (chosen sv rq).
 Proof.
-  intros H Hf. unfold server_unary. fold (chosen sv rq).
+  intros H Hf Hne. unfold server_call. fold (chosen sv rq).
   assert (E : exists enc, from_encoding_header (rq_headers rq) (sv_accept sv) = RecvOk enc).
   { destruct H as [H|[H|(e & H & He)]].
     - exists None. apply recv_identity_iff. now left.
     - exists None. apply recv_identity_iff. now right.
     - exists (Some e). apply recv_accepts_iff. now split. }
-  destruct E as [enc ->]. unfold decode_first, decode_flag. rewrite Hf. reflexivity.
+  destruct E as [enc ->]. unfold map_request_unary.
+  rewrite (decode_all_plain enc _ Hf). destruct (rq_frames rq); [contradiction|].
+  destruct (request_is_unary s); reflexivity.
 Qed.
 
-(* a message flagged as compressed although no encoding was negotiated: INTERNAL *)
-Theorem server_flag_without_encoding sv rq h :
+(* a message flagged as compressed although no encoding was negotiated: INTERNAL.  The unary
+   request shapes answer with that status; the streaming ones hand it to the handler as the
+   (only) item of its request stream *)
+Theorem server_flag_without_encoding cmp s sv rq h f r :
   (hm_get (rq_headers rq) hdr_grpc_encoding = None \/
    hm_get (rq_headers rq) hdr_grpc_encoding = Some encoding_header_identity) ->
-  rq_flag rq = 1 ->
-  exists st m, server_unary sv rq h = RespStatus st m /\ st_code st = Code_Internal /\
-    hm_get_all m hdr_grpc_status = [STATUS_INTERNAL] /\ hm_get_all m hdr_grpc_encoding = [].
+  rq_frames rq = f :: r -> rf_flag f = 1 ->
+  exists st, st_code st = Code_Internal /\
+    if request_is_unary s then
+      exists m, server_call cmp s sv rq h = RespStatus st m /\
+        hm_get_all m hdr_grpc_status = [STATUS_INTERNAL] /\ hm_get_all m hdr_grpc_encoding = []
+    else server_call cmp s sv rq h = map_response cmp s (h (O, inr st)) (chosen sv rq).
 Proof.
-  intros H Hf. unfold server_unary.
+  intros H Hfr Hf. exists (internal flag_no_encoding_msg). split; [reflexivity|].
+  unfold server_call. fold (chosen sv rq).
   assert (E : from_encoding_header (rq_headers rq) (sv_accept sv) = RecvOk None) by now apply recv_identity_iff.
-  rewrite E, Hf.
-  change (decode_first None 1 (rq_inflates rq)) with (@inr unit status (internal flag_no_encoding_msg)).
-  cbv iota.
-  destruct (internal_into_http flag_no_encoding_msg) as (m & -> & H1 & _ & H3); [now left|].
-  eexists _, m. repeat split; assumption.
+  rewrite E, Hfr. unfold map_request_unary. rewrite (decode_all_flagged f r Hf).
+  destruct (request_is_unary s); [|reflexivity].
+  destruct (internal_into_http flag_no_encoding_msg) as (m & -> & H1 & _ & H3); [unfold is_internal_msg; tauto|].
+  exists m. repeat split; assumption.
 Qed.
 
-Theorem server_never_panics sv rq h :
-  (forall st, h = HErr st -> well_formed st) -> server_unary sv rq h <> RespPanic.
+Theorem server_never_panics cmp s sv rq h :
+  (forall d st, h d = HErr st -> well_formed st) -> server_call cmp s sv rq h <> RespPanic.
 Proof.
-  intros Hh. unfold server_unary.
+  intros Hh.
+  assert (Hmap : forall d acc, map_response cmp s (h d) acc <> RespPanic).
+  { intros d acc. destruct (h d) as [md ov msgs|st] eqn:Eh.
+    - destruct (map_response_ok cmp s md ov msgs acc) as (hd & -> & _). discriminate.
+    - cbn [map_response]. destruct (status_into_http_total st (Hh d st Eh)) as [m ->]. discriminate. }
+  unfold server_call.
   destruct (from_encoding_header (rq_headers rq) (sv_accept sv)) as [enc|st|] eqn:E.
-  - destruct (decode_first enc (rq_flag rq) (rq_inflates rq)) as [[]|st] eqn:Ed.
-    + destruct h as [md ov|st].
-      * destruct (map_response_ok md ov (from_accept_encoding_header (rq_headers rq) (sv_send sv))) as (hd & -> & _). discriminate.
-      * cbn [map_response]. destruct (status_into_http_total st (Hh st eq_refl)) as [m ->]. discriminate.
-    + apply decode_first_status in Ed as (msg & -> & Hm).
-      destruct (internal_into_http msg Hm) as (m & -> & _). discriminate.
-  - pose proof (recv_encoding_exact (rq_headers rq) (sv_accept sv)) as H.
-    unfold from_encoding_header in E. destruct (hm_get (rq_headers rq) hdr_grpc_encoding) as [v|]; [|discriminate].
+  - destruct (request_is_unary s); [|apply Hmap].
+    destruct (map_request_unary enc (rq_frames rq)) as [n [u|st]] eqn:Ed; [apply Hmap|].
+    apply map_request_unary_status in Ed as (msg & -> & Hm).
+    destruct (internal_into_http msg Hm) as (m & -> & _). discriminate.
+  - unfold from_encoding_header in E. destruct (hm_get (rq_headers rq) hdr_grpc_encoding) as [v|]; [|discriminate].
     destruct (match_guarded encoding_header_table v (sv_accept sv)); [discriminate|].
     destruct (bytes_eqb v encoding_header_identity); [discriminate|].
     destruct (accept_value (sv_accept sv)) as [|hv|]; [|injection E as <-|discriminate].
@@ -947,37 +1043,74 @@ Proof.
     destruct (accept_value (cl_accept c)); try discriminate; contradiction.
 Qed.
 
-(* grpc-encoding of a request, and the coding of its frames, are exactly the configured
-   encoding; without one, tonic adds nothing and the frames are plain *)
-Theorem client_sends_exactly c md h :
-  prepare_request c md = Done h ->
-  match cl_send c with
-  | Some e => hm_get_all h hdr_grpc_encoding = [as_str e] /\
-              client_request_encoding c = Some e /\ flag_of (client_request_encoding c) = 1
-  | None => hm_get_all h hdr_grpc_encoding = hm_get_all md hdr_grpc_encoding /\
-            client_request_encoding c = None /\ flag_of (client_request_encoding c) = 0
-  end.
+(* every call shape builds its request the same way *)
+Lemma client_request_parts cmp s c md msgs h frames :
+  client_request cmp s c md msgs = Done (h, frames) ->
+  prepare_request c md = Done h /\
+  frames = map (encode_item cmp (cl_send c)) (request_messages s msgs).
 Proof.
-  unfold prepare_request, client_request_encoding.
+  unfold client_request. destruct (prepare_request c md) as [h'|]; [|discriminate].
+  intros H. injection H as <- <-. split; reflexivity.
+Qed.
+
+Lemma prepare_request_encoding c md h :
+  prepare_request c md = Done h ->
+  hm_get_all h hdr_grpc_encoding =
+    match cl_send c with Some e => [as_str e] | None => hm_get_all md hdr_grpc_encoding end.
+Proof.
+  unfold prepare_request.
   destruct (cl_send c) as [e|]; [unfold mk_hv; rewrite as_str_legal|];
-    destruct (accept_value (cl_accept c)) as [|v|]; intros H; try discriminate; injection H as <-;
-    repeat split.
+    destruct (accept_value (cl_accept c)) as [|v|]; intros H; try discriminate; injection H as <-.
   - apply get_all_insert_same.
   - rewrite get_all_insert_other by reflexivity. apply get_all_insert_same.
   - do 2 rewrite get_all_insert_other by reflexivity. apply sanitize_keeps_encoding.
   - do 3 rewrite get_all_insert_other by reflexivity. apply sanitize_keeps_encoding.
 Qed.
 
+(* every call shape: grpc-encoding of the request and the coding of each of its frames are
+   exactly the configured encoding; without one, tonic adds no header and the frames are plain *)
+Theorem client_sends_exactly cmp s c md msgs h frames :
+  client_request cmp s c md msgs = Done (h, frames) ->
+  length frames = length (request_messages s msgs) /\
+  match cl_send c with
+  | Some e => hm_get_all h hdr_grpc_encoding = [as_str e] /\
+              Forall (fun f => wf_used f = Some e /\ wf_flag f = 1 /\
+                               exists m, wf_bytes f = frame 1 (cmp e m)) frames
+  | None => hm_get_all h hdr_grpc_encoding = hm_get_all md hdr_grpc_encoding /\
+            Forall (fun f => wf_used f = None /\ wf_flag f = 0 /\
+                             exists m, wf_bytes f = frame 0 m) frames
+  end.
+Proof.
+  intros H. apply client_request_parts in H as [Hp ->]. split; [apply map_length|].
+  pose proof (prepare_request_encoding c md h Hp) as He.
+  destruct (cl_send c) as [e|]; (split; [exact He|]); apply Forall_forall; intros f Hin;
+    apply in_map_iff in Hin as (m & <- & _); cbn [encode_item wf_used wf_flag wf_bytes flag_of]; eauto.
+Qed.
+(* the same as an equivalence, under the stated premise that the caller's own metadata has no
+   grpc-encoding entry *)
+Corollary client_announce_iff cmp s c md msgs h frames :
+  client_request cmp s c md msgs = Done (h, frames) -> hm_get_all md hdr_grpc_encoding = [] ->
+  (forall e, hm_get_all h hdr_grpc_encoding = [as_str e] <-> cl_send c = Some e) /\
+  (hm_get_all h hdr_grpc_encoding = [] <-> cl_send c = None).
+Proof.
+  intros H Hmd. apply client_request_parts in H as [Hp _].
+  pose proof (prepare_request_encoding c md h Hp) as He. rewrite Hmd in He. rewrite He.
+  destruct (cl_send c) as [e'|]; split; try intros e; split; intros H1; try discriminate; try reflexivity.
+  - injection H1 as H1. apply as_str_injective in H1. now subst.
+  - now injection H1 as ->.
+Qed.
+
 (* grpc-accept-encoding of a request lists exactly the accepted encodings (+ identity);
    when none is accepted tonic adds no such header *)
-Theorem client_advertises_exactly c md h :
-  prepare_request c md = Done h ->
+Theorem client_advertises_exactly cmp s c md msgs h frames :
+  client_request cmp s c md msgs = Done (h, frames) ->
   match en_list (cl_accept c) with
   | [] => hm_get_all h hdr_grpc_accept_encoding = hm_get_all md hdr_grpc_accept_encoding
   | l => hm_get_all h hdr_grpc_accept_encoding = [refusal_value (cl_accept c)] /\
          split_by_comma (refusal_value (cl_accept c)) = map as_str l ++ [encoding_header_identity]
   end.
 Proof.
+  intros H. apply client_request_parts in H as [H _]. revert H.
   unfold prepare_request. pose proof (accept_value_exact (cl_accept c)) as Ha.
   pose proof (refusal_value_lists_enabled (cl_accept c)) as Hl.
   destruct (en_list (cl_accept c)) as [|e0 r] eqn:El; rewrite Ha;
@@ -989,16 +1122,17 @@ Proof.
   - split; [apply get_all_insert_same|exact Hl].
 Qed.
 
-(* a response whose grpc-encoding is not enabled for receiving fails the call with
-   UNIMPLEMENTED - before its status, if any, is even looked at *)
-Theorem client_refuses_unaccepted c hdrs v :
+(* a response whose grpc-encoding is not enabled for receiving fails the call of every shape
+   with UNIMPLEMENTED - before its status, if any, is even looked at; nothing is delivered *)
+Theorem client_refuses_unaccepted s c hdrs fs v :
   hm_get hdrs hdr_grpc_encoding = Some v ->
   (forall e, v = as_str e -> is_enabled (cl_accept c) e = false) -> v <> encoding_header_identity ->
-  exists st, create_response c hdrs = ClErr st /\ st_code st = Code_Unimplemented /\
+  exists st, client_receive s c hdrs fs = CrDone O (inr st) /\ st_code st = Code_Unimplemented /\
     hm_get_all (st_md st) hdr_grpc_accept_encoding = [refusal_value (cl_accept c)].
 Proof.
   intros Hv Hno Hid. destruct (recv_refuses_otherwise hdrs (cl_accept c) v Hv Hno Hid) as (st & H1 & H2 & H3 & _).
-  exists st. unfold create_response. rewrite H1. repeat split; assumption.
+  exists st. unfold client_receive, single_response, read_response, create_response. rewrite H1.
+  destruct (response_is_unary s); repeat split; assumption.
 Qed.
 (* and only such a response is refused for its encoding *)
 Theorem client_stream_encoding c hdrs enc :
@@ -1014,17 +1148,27 @@ Proof.
   - apply recv_accepts_iff in E. exact E.
   - apply recv_identity_iff in E. exact E.
 Qed.
-Theorem client_flag_without_encoding c hdrs infl :
-  create_response c hdrs = ClStream None ->
-  exists st, client_receive c hdrs 1 infl = CrErr st /\ st_code st = Code_Internal.
-Proof. intros H. unfold client_receive. rewrite H. eexists. split; reflexivity. Qed.
-Theorem client_never_panics_receiving c hdrs flag infl : client_receive c hdrs flag infl <> CrPanic.
+(* every shape: a first frame flagged as compressed on a response without encoding *)
+Theorem client_flag_without_encoding s c hdrs f r :
+  create_response c hdrs = ClStream None -> rf_flag f = 1 ->
+  exists st, client_receive s c hdrs (f :: r) = CrDone O (inr st) /\ st_code st = Code_Internal.
 Proof.
-  unfold client_receive, create_response.
+  intros H Hf. unfold client_receive, single_response, read_response. rewrite H.
+  rewrite (decode_all_flagged f r Hf). unfold decode_first, decode_flag. rewrite Hf. cbn [N.eqb Pos.eqb].
+  destruct (response_is_unary s); eexists; split; reflexivity.
+Qed.
+Theorem client_never_panics_receiving s c hdrs fs : client_receive s c hdrs fs <> CrPanic.
+Proof.
+  unfold client_receive, single_response, read_response, create_response.
   destruct (from_encoding_header hdrs (cl_accept c)) as [enc|st|] eqn:E.
-  - destruct (from_header_map hdrs) as [st|]; [destruct (st_code st =? Code_Ok); discriminate|].
-    destruct (decode_first enc flag infl); discriminate.
-  - discriminate.
+  - destruct (response_is_unary s).
+    + destruct (from_header_map hdrs) as [st|]; [destruct (st_code st =? Code_Ok); discriminate|].
+      destruct fs as [|f r]; [discriminate|].
+      destruct (decode_first enc (rf_flag f) (rf_inflates f)); [|discriminate].
+      destruct (decode_all enc r) as [n [u2|st]]; discriminate.
+    + destruct (from_header_map hdrs) as [st|]; [destruct (st_code st =? Code_Ok); discriminate|].
+      destruct (decode_all enc fs) as [n e]. discriminate.
+  - destruct (response_is_unary s); discriminate.
   - now apply recv_never_panics in E.
 Qed.
 
@@ -1042,13 +1186,13 @@ Proof.
   assert (H : token_encoding (as_str e) = Some e) by now apply token_encoding_spec.
   now rewrite H, IH.
 Qed.
-(* a tonic server answering a tonic client picks the first encoding, in the client's order of
-   acceptance, that the server is configured to send *)
-Theorem negotiation_end_to_end cl md h send :
-  prepare_request cl md = Done h -> en_list (cl_accept cl) <> [] ->
+(* a tonic server answering a tonic client (any shape on either side) picks the first encoding,
+   in the client's order of acceptance, that the server is configured to send *)
+Theorem negotiation_end_to_end cmp s cl md msgs h frames send :
+  client_request cmp s cl md msgs = Done (h, frames) -> en_list (cl_accept cl) <> [] ->
   from_accept_encoding_header h send = find (is_enabled send) (en_list (cl_accept cl)).
 Proof.
-  intros Hp Hne. pose proof (client_advertises_exactly cl md h Hp) as Ha.
+  intros Hp Hne. pose proof (client_advertises_exactly cmp s cl md msgs h frames Hp) as Ha.
   destruct (en_list (cl_accept cl)) as [|e0 r] eqn:El; [congruence|]. destruct Ha as [Hget Hsplit].
   unfold from_accept_encoding_header.
   assert (Hg : hm_get h hdr_grpc_accept_encoding = Some (refusal_value (cl_accept cl))).
@@ -1060,28 +1204,6 @@ Proof.
   now rewrite (is_empty_not_enabled send x Ee).
 Qed.
 
-(* ------------------------------------------------------------------ on the wire *)
-(* The descriptors (flag, coding) above, read as bytes.  The compressors are external
-   (flate2, zstd): a section variable, no law about it is needed here. *)
-Section Wire.
-  Variable compress : encoding -> list N -> list N.
-
-  Definition wire_frame (used : option encoding) (msg : list N) : list N :=
-    frame (flag_of used) (match used with Some e => compress e msg | None => msg end).
-
-  Theorem server_wire sv rq h hdrs flag used msg :
-    server_unary sv rq h = RespOk hdrs flag used ->
-    (wire_frame used msg = frame 0 msg /\ used = None) \/
-    (exists e, wire_frame used msg = frame 1 (compress e msg) /\ used = Some e /\
-               is_enabled (sv_send sv) e = true /\ offers (rq_headers rq) e /\
-               hm_get_all hdrs hdr_grpc_encoding = [as_str e]).
-  Proof.
-    intros H. destruct used as [e|]; [right|left; split; reflexivity].
-    destruct (server_compresses_only_as_negotiated _ _ _ _ _ _ e H eq_refl) as (H1 & H2 & _ & H4).
-    exists e. repeat split; assumption.
-  Qed.
-End Wire.
-
 (* ------------------------------------------------------------------ bundles used by Props/C05.v *)
 Theorem split_is_the_comma_decomposition s :
   join COMMA (split_on COMMA s) = s /\ Forall (fun p => ~ In COMMA p) (split_on COMMA s) /\
@@ -1090,10 +1212,10 @@ Proof.
   split; [apply split_on_join|]. split; [apply split_on_no_sep|]. intros ps. apply split_on_unique.
 Qed.
 
-Theorem never_panics sv rq h c md hdrs flag infl :
-  (forall st, h = HErr st -> well_formed st) ->
-  server_unary sv rq h <> RespPanic /\ prepare_request c md <> Panic /\
-  client_receive c hdrs flag infl <> CrPanic /\ accept_value (sv_accept sv) <> AvPanic.
+Theorem never_panics cmp s sv rq h c md hdrs fs :
+  (forall d st, h d = HErr st -> well_formed st) ->
+  server_call cmp s sv rq h <> RespPanic /\ prepare_request c md <> Panic /\
+  client_receive s c hdrs fs <> CrPanic /\ accept_value (sv_accept sv) <> AvPanic.
 Proof.
   intros H. split; [now apply server_never_panics|].
   split; [apply client_never_panics|]. split; [apply client_never_panics_receiving|apply accept_value_never_panics].
